@@ -5,7 +5,7 @@ from common import Model, Impl
 PROP = "C14"
 LEVEL = "proof"
 VARIANTS = [["cg", "dulwich"], ["midx", "dulwich"], ["bitmap", "dulwich"], ["cg+midx+bitmap", "dulwich"],
-            ["cg", "git"], ["midx", "git"], ["bitmap", "git"], ["cg+midx+bitmap", "git"]]
+            ["cg", "git"], ["midx", "git"], ["bitmap", "git"], ["cg+midx+bitmap", "git"], ["cg-direct", "dulwich"]]
 STALE = ["loose", "pack", "repack", "prune", "shallow", "retag"]
 
 
@@ -14,7 +14,8 @@ def run(rep):
     thorough = rep.tier == "thorough"
     rep.extra["rule"] = ("random histories stored as two packs plus loose objects; answers = {membership and raw content of every object "
                          "and of an absent id, iteration of the store, merge bases and fast-forward tests of 10 commit pairs, the history "
-                         "walk from all branches, the reachable-object set, the objects selected for two transfers, all refs}; for every "
+                         "walk from all branches, the reachable-object set, the objects selected for two transfers, all refs, what "
+                         "get_reachability_provider() answers for four (heads, exclude) choices}; for every "
                          "subset of {commit-graph, multi-pack-index, bitmaps} written by dulwich or by C git the answers must equal those "
                          "of the same repository with the acceleration files removed — right after writing, and after the history was "
                          "continued with loose commits, with a new pack, after a repack, and after branches were deleted and gc pruned; "
@@ -39,6 +40,12 @@ def run(rep):
                 rep.fail("writer-failed", "writing %s with %s failed: %s" % (v["which"], v["writer"], v["write_failed"]), case)
                 continue
             rep.case("fresh", key=(q["seed"], v["which"], v["writer"]), nontrivial=True, sample=dict(case, files=v.get("files")))
+            if v["which"] == "cg-direct":
+                # write_commit_graph(refs, reachable=False): recorded finding, see known_findings.json
+                if v["fresh_diff"] or v["graph_parents_wrong"]:
+                    rep.fail("commit-graph-of-direct-refs-drops-parents", "a commit-graph written with reachable=False: answers to %s differ, parents wrong for %s"
+                             % (v["fresh_diff"], v["graph_parents_wrong"]), case)
+                continue
             if v["fresh_diff"]:
                 rep.fail("answers-change-with-accelerator", "with %s written by %s the answers to %s differ from those without" % (v["which"], v["writer"], v["fresh_diff"]), case)
             if v["graph_parents_wrong"]:
